@@ -175,6 +175,7 @@ def run(pid, tier, seed):
             wcontent[n_] = b""
         for trial in range(3 if tier == "quick" else 12):
             order = list(wnames) + rng.sample(["no such file.log", "empty.log", "empty dir"], rng.choice([0, 1, 3]))
+            order += rng.sample(wnames, rng.choice([0, 1, 2]))      # a path named twice is read twice, by either route
             rng.shuffle(order)
             want_w = b"".join(wcontent[n_] for n_ in order)
             k = rng.randrange(len(order) + 1)
